@@ -52,7 +52,7 @@ def plan(quick):
     if quick:
         return [
             ("exec", dict(maxes=[0, 1, 2, 3], inits=[0, 10, 1000], maxbs=[0, 100, 1000],
-                          mults=["0", "0.5", "1", "2", "10", "nan", "-1", "1e308"], hints=[0, 30, 2000])),
+                          mults=["0", "0.5", "2", "10", "nan", "-1"], hints=[0, 30, 2000])),
             ("kinds", {}),
             ("hostile", dict(maxes=[2], inits=[0, 100, SAT], maxbs=[100, SAT],
                              mults=["2", "0.5", "inf", "nan", "1e308", "-1", "-inf"], hints=[30], hint_huge=True)),
@@ -99,7 +99,7 @@ def program_of(evs):
 def run_programs(ctx, family, progs, trace, shards=12):
     if family == "cdn":
         n = sum(1 for _ in open(progs))
-        d = lib.run_driver("drv_retry", ["--cdn", progs, "--out", trace, "--par", 48 if n > 200 else 32], timeout=1500)
+        d = lib.run_driver("drv_retry", ["--cdn", progs, "--out", trace, "--par", 48 if n > 200 else 32, "--patience", 40], timeout=1500)
     else:
         d = lib.run_sharded(ctx, "drv_retry", progs, trace, shards=shards, timeout=1500)
     return d
@@ -319,7 +319,7 @@ def run(ctx):
                                    "followed by Ok or a fatal error, k = 0..max_attempts+1; every pair of error variants (kinds); every environment of "
                                    "the env grid; every status script of the cdn grid. The random tier is not exhaustive")
     ctx.assumptions += ["TLC, the CommunityModules Json reader, tokio's paused clock (test-util) and the driver's projection are trusted",
-                        "delays are observed on tokio's virtual clock with a 2 ms allowance per wait; the cdn family uses the real clock and is judged on lower bounds of waits only (no wall-clock upper bound decides anything; a download that is not back after 60 s is inconclusive, exit 2)",
+                        "delays are observed on tokio's virtual clock with a 2 ms allowance per wait; the cdn family uses the real clock and is judged on lower bounds of waits only (no wall-clock upper bound decides anything; a download that is not back after 40 s is inconclusive, exit 2)",
                         "CdnClient::download_with_retry is judged against RetryPolicy::default() as read back from the crate",
                         "jitter is drawn from the thread RNG: the verdict does not depend on it because every admissible jitter value is accepted"]
     return lib.finish(ctx, "model_checking",
